@@ -21,12 +21,12 @@ def parseBool01 : Char → Option Bool
   | '1' => some true
   | _ => none
 
-/-- `c<0|1>r<0|1>s<0|1>` -/
+/-- `c<0|1>r<0|1>s<0|1>j<0|1>` -/
 def parseCfg (s : String) : Option Cfg :=
   match s.toList with
-  | ['c', a, 'r', b, 's', c] => do
-    let a ← parseBool01 a; let b ← parseBool01 b; let c ← parseBool01 c
-    pure { clientDisable := a, reqDisable := b, save := c }
+  | ['c', a, 'r', b, 's', c, 'j', d] => do
+    let a ← parseBool01 a; let b ← parseBool01 b; let c ← parseBool01 c; let d ← parseBool01 d
+    pure { clientDisable := a, reqDisable := b, save := c, result := d }
   | _ => none
 
 def parseOp (s : String) : Option Op :=
